@@ -59,8 +59,40 @@ func buildArmedHist(c *core.Ctx, idx int) *armedHist {
 	if (core.Quick(c) && idx%20 == 5) || (!core.Quick(c) && idx%80 == 5) {
 		shape = 9 // costly (1100-row tables): 60 per quick run, 375 per thorough run
 	}
+	if (core.Quick(c) && idx%100 == 25) || (!core.Quick(c) && idx%160 == 25) {
+		shape = 10
+	}
 	var armed *proto.Stmt
 	switch shape {
+	case 10:
+		// the INSERT that splits the table's internal root (its 1165th row) is
+		// the 2^k-th RECORD of the statement (64 ... 1024): if the statement's
+		// records are handed to the log in groups of such a size, the cut
+		// falls between that record and the catalog record that belongs to it
+		pw := r.Range(6, 10)
+		before := 1<<uint(pw) - 1
+		ct := &proto.Stmt{Kind: "create", Table: "pw", Defs: []proto.ColDef{{Name: "k", Type: "int"}, {Name: "g", Type: "int"}, {Name: "pad", Type: "varchar", Len: 255}}}
+		push(ct)
+		next := 0
+		padLen := r.Range(0, 40)
+		mk := func(n int) *proto.Stmt {
+			st := &proto.Stmt{Kind: "insert", Table: "pw"}
+			for i := 0; i < n; i++ {
+				st.Rows = append(st.Rows, []proto.Val{proto.Int(int64(next)), proto.Int(1), proto.Str(strings.Repeat("p", padLen))})
+				next++
+			}
+			return st
+		}
+		for pre := 1165 - 1 - before; pre > 0; {
+			n := pre
+			if n > 300 {
+				n = 300
+			}
+			push(mk(n))
+			pre -= n
+		}
+		armed = mk(before + 1 + r.Range(2, 40))
+		ah.shape = fmt.Sprintf("insert-internal-root-move-at-record-2^%d", pw)
 	case 9:
 		// the record of the INSERT that moves the table's root is the one with
 		// which the statement's log bytes reach a power of two (512 B ... 128
@@ -218,7 +250,7 @@ func pickUsable(h *gen.Hist, r *core.Rand) *model.Table {
 
 func checkC03(c *core.Ctx) []core.Floor {
 	c.Level = "fault_enumeration"
-	c.Rule = "seeded prefix histories followed by one multi-row INSERT/UPDATE/DELETE (2-14 row operations; a third of the INSERTs move the table's root in mid-batch; one history in twenty places the root-moving record exactly where the statement's log bytes reach 2^9 ... 2^17, on fresh tables and on tables about to split their internal root); a crash image is taken immediately before EVERY write and fsync the statement issues on the log file, in two cuts (log as written / log as of the last fsync). Each image is recovered in a fresh process; the state must equal pre-state + first j row operations for some j; recovery is repeated; then 3-8 further statements are checked against the model continued from that j-state. Independently of the hooks, one history in forty (eight in the thorough tier) is re-run under strace once per write / fsync call it makes on the log file - every statement of the history, not only the armed one - with SIGKILL delivered on entry to that call; what is left must be a prefix state of the statement that was in flight, and 3-5 further statements must behave. Distinct = image; non-trivial = recovery of the image replayed at least one log record."
+	c.Rule = "seeded prefix histories followed by one multi-row INSERT/UPDATE/DELETE (2-14 row operations; a third of the INSERTs move the table's root in mid-batch; one history in twenty places the root-moving record exactly where the statement's log bytes reach 2^9 ... 2^17, on fresh tables and on tables about to split their internal root; one in a hundred makes the INSERT that splits the internal root the 64th ... 1024th RECORD of the statement); a crash image is taken immediately before EVERY write and fsync the statement issues on the log file, in two cuts (log as written / log as of the last fsync). Each image is recovered in a fresh process; the state must equal pre-state + first j row operations for some j; recovery is repeated; then 3-8 further statements are checked against the model continued from that j-state. Independently of the hooks, one history in forty (eight in the thorough tier) is re-run under strace once per write / fsync call it makes on the log file - every statement of the history, not only the armed one - with SIGKILL delivered on entry to that call; what is left must be a prefix state of the statement that was in flight, and 3-5 further statements must behave. Distinct = image; non-trivial = recovery of the image replayed at least one log record."
 	c.Assume = []string{"process-death crash model; the fsync cut applies to the log only", "the data file is untouched while a statement appends to the log (timer off: a flush cannot interleave, which is C13's claim)"}
 	drv := mustDriver(c, false)
 	straceOK = straceWorks(c, drv)
@@ -234,7 +266,7 @@ func checkC03(c *core.Ctx) []core.Floor {
 		floors = append(floors, core.Floor{Key: "syscall_kills", Min: 200})
 	}
 	return append(floors, []core.Floor{
-		{Key: "images_verified", Min: 1000}, {Key: "armed_insert-root-move", Min: 10}, {Key: "armed_insert-bulk", Min: 10}, {Key: "armed_insert-internal-root-move", Min: 3}, {Key: "armed_insert-root-move-two-level-catalog", Min: 5}, {Key: "log_batches_over_16KiB", Min: 10}, {Key: "armed_update", Min: 10}, {Key: "armed_delete", Min: 10},
+		{Key: "images_verified", Min: 1000}, {Key: "armed_insert-root-move", Min: 10}, {Key: "armed_insert-bulk", Min: 10}, {Key: "armed_insert-internal-root-move", Min: 3}, {Key: "armed_internal_root_move_at_a_power_of_two_record_index", Min: 5}, {Key: "armed_insert-root-move-two-level-catalog", Min: 5}, {Key: "log_batches_over_16KiB", Min: 10}, {Key: "armed_update", Min: 10}, {Key: "armed_delete", Min: 10},
 		{Key: "images_insert_sync_f", Min: 1}, {Key: "images_update_sync_f", Min: 1}, {Key: "images_delete_sync_f", Min: 1},
 		{Key: "images_insert_len_w", Min: 1}, {Key: "images_update_len_w", Min: 1}, {Key: "images_delete_len_w", Min: 1},
 		{Key: "continuations_ok", Min: 500},
@@ -317,6 +349,9 @@ func runArmedHist(c *core.Ctx, drv string, ah *armedHist) {
 		}
 	}
 	c.Count("armed_"+ah.shape, 1)
+	if strings.Contains(ah.shape, "-at-record-2^") {
+		c.Count("armed_internal_root_move_at_a_power_of_two_record_index", 1)
+	}
 	if len(events) >= 2 {
 		sz := int64(events[len(events)-1].Off) - int64(events[0].Off)
 		c.Max("largest_log_batch_bytes", sz)
